@@ -1508,6 +1508,15 @@ def replay(out: Outcome, payload: dict) -> None:
             return
         kind = payload.get("kind")
         text = "".join(chr(c) for c in payload["input"]) if "input" in payload else payload.get("text", "")
+        if str(payload.get("note", "")).startswith("under the default recursion limit"):
+            pr_ = subprocess.run(["/venv/bin/python", __file__.rsplit("/", 1)[0] + "/deep_json_probe.py", str(REPO)],
+                                 capture_output=True, text=True, timeout=600)
+            probe_ = json.loads(pr_.stdout.strip().splitlines()[-1])
+            bad_ = {k_: r_ for k_, r_ in probe_["results"].items() if r_ not in ("ok", "rec")}
+            if bad_:
+                k_ = sorted(bad_)[0]
+                out.violation({**payload, "observed": bad_[k_], "where": k_})
+            return
         if kind == "calc":
             toks = toks_dec(payload["tokens"])
             mode = payload.get("mode")
@@ -1629,6 +1638,40 @@ def run(out: Outcome) -> None:  # noqa: PLR0912, PLR0915
         if incons:
             out.infra_error = "the harness's own references disagree: " + incons[0][:600]
             return
+
+        # documents that nest deeply but well within what the interpreter's recursion budget carries (a RecursionError is the
+        # budget, not a verdict, and is skipped): every mode must still accept them and mirror json.loads
+        deep_skipped = 0
+        for kind_, depth_, leaf_ in (("A", 30, "1"), ("A", 80, "1"), ("A", 80, '"a\\nb"'), ("O", 30, "1"), ("O", 60, "1"), ("O", 60, '"x"'),
+                                     ("AO", 60, "null"), ("A", 8, '"' + "\\n" * 140 + '"')):
+            text_ = leaf_
+            for i_ in range(depth_):
+                text_ = "[" + text_ + "]" if kind_ == "A" or (kind_ == "AO" and i_ % 2) else '{"k":' + text_ + "}"
+            for p_ in json_accept_problems(text_):
+                if p_.get("observed") == "RecursionError":
+                    deep_skipped += 1
+                    continue
+                p_["text"] = text_
+                json_problems.append(p_)
+            parses += 8
+            stats["json"] += 1
+        stats["deep-json-skipped-for-recursion"] = deep_skipped
+        # the same documents under CPython's default recursion limit (this harness raises it), in a process of its own
+        try:
+            pr_ = subprocess.run(["/venv/bin/python", __file__.rsplit("/", 1)[0] + "/deep_json_probe.py", str(REPO)],
+                                 capture_output=True, text=True, timeout=600)
+            probe_ = json.loads(pr_.stdout.strip().splitlines()[-1])
+            for key_, r_ in probe_["results"].items():
+                g_, mode_, dn_ = key_.split("|", 2)
+                if r_ in ("ok", "rec"):
+                    deep_skipped += r_ == "rec"
+                    continue
+                json_problems.append({"grammar": GRAMMARS[g_], "mode": mode_, "what": "valid document not accepted",
+                                      "observed": "PestParsingError" if r_ == "fail" else r_[4:], "expected": "a parse tree",
+                                      "text": probe_["docs"][dn_], "note": "under the default recursion limit of 1000"})
+            parses += len(probe_["results"])
+        except Exception as e_:  # noqa: BLE001
+            stats["deep-json-probe-failed:" + type(e_).__name__] = 1
 
         t_search = time.time() - t0 - t_export - t_proof
         # ---- correspondence with the Lean models
